@@ -1,8 +1,10 @@
 SPECIFICATION Spec
-CONSTANTS Wirings = {"plain", "tunnel"} Kinds = {"basic", "cache", "tunnel"} MaxTasks = 2 MaxCaches = 1 MaxSocks = 1
+CONSTANTS Wirings = {"plain", "tunnel"} Kinds = {"basic", "cache", "tunnel"} MaxTasks = 2 MaxCaches = 1 MaxSocks = 1 MaxBoot = 1
+          InitAwaited = TRUE UnloadRemovesPending = TRUE
           WrapperForwardsRemove = TRUE CryptoListenerRemoved = FALSE RemovalAwaited = TRUE
 INVARIANT TypeOK
 INVARIANT LoadedReachable
 INVARIANT SilentAfterUnload
 INVARIANT NoLateActivity
+INVARIANT JobsHeld
 PROPERTY NoNewTaskAfterUnload
